@@ -50,6 +50,8 @@ pub struct Def {
 	pub derive_mel: bool,
 	pub derive_compact_as: bool,
 	pub dumb_trait_bound: bool,
+	/// `#[codec(mel_bound(T: MaxEncodedLen))]`: the hand-written form of the bound the derive would generate
+	pub mel_bound: bool,
 }
 
 pub const PLAIN_TYPES: [&str; 22] = [
@@ -138,6 +140,12 @@ fn gen_fields(g: &mut Gen, mel: bool, generics: &[String], prior: &[String]) -> 
 			}
 		}
 	}
+	// zero-sized markers that are NOT skipped, at any position (a marker before the only real field moves its index)
+	if g.chance(48) {
+		let at = g.below(f.len() + 1);
+		let ty = if !generics.is_empty() && g.bool() { format!("PhantomData<{}>", generics[0]) } else { "PhantomData<u8>".to_string() };
+		f.insert(at, FieldDef { ty, mode: Mode::Plain, extra_attrs: vec![] });
+	}
 	f
 }
 
@@ -185,6 +193,7 @@ pub fn gen_valid_def(g: &mut Gen, name: &str, mel: bool, prior: &[String]) -> De
 			derive_mel: mel,
 			derive_compact_as: false,
 			dumb_trait_bound: false,
+		mel_bound: false,
 		}
 	} else {
 		let special = g.below(24);
@@ -224,6 +233,7 @@ pub fn gen_valid_def(g: &mut Gen, name: &str, mel: bool, prior: &[String]) -> De
 			derive_mel: mel,
 			derive_compact_as: false,
 			dumb_trait_bound: false,
+		mel_bound: false,
 		};
 		if nvars <= 8 {
 			assign_valid_indices(g, &mut def, use_discr);
@@ -250,6 +260,25 @@ pub fn gen_valid_def(g: &mut Gen, name: &str, mel: bool, prior: &[String]) -> De
 	}
 	if def.generics.len() == 1 && g.chance(24) {
 		def.dumb_trait_bound = true;
+	}
+	if def.generics.len() == 1 && def.derive_mel && !def.transparent && g.chance(160) {
+		def.mel_bound = true;
+		// a hand-written bound list replaces the generated where clause: the bound must still be computed from the
+		// fields' *selected representations*, so give the definition one that is longer than the declared type
+		let t = g.pick(&INT_TYPES).to_string();
+		let extra = if g.bool() {
+			FieldDef { ty: t, mode: Mode::Compact, extra_attrs: vec![] }
+		} else {
+			FieldDef { mode: Mode::EncodedAs(format!("Compact<{t}>"), format!("Compact<{t}>")), ty: t, extra_attrs: vec![] }
+		};
+		match &mut def.body {
+			Body::Struct { fields, .. } => fields.push(extra),
+			Body::Enum { variants } =>
+				if let Some(v) = variants.iter_mut().find(|v| !v.skip) {
+					v.fields.push(extra);
+				},
+			_ => {},
+		}
 	}
 	// explicit discriminants next to data-carrying variants need a primitive representation
 	if let Body::Enum { variants } = &def.body {
@@ -447,10 +476,26 @@ pub fn codec_indices(def: &Def) -> Vec<(usize, u32)> {
 }
 
 /// Why the definition must be rejected at compile time (C17 reference predicate); None = valid.
+/// Field attributes in a form the derive documents as invalid ("only `#[codec(skip)]`, `#[codec(compact)]` and
+/// `#[codec(encoded_as = \"$EncodeAs\")]` are accepted"): they must be rejected, not accepted and silently ignored.
+pub const MALFORMED_FIELD_ATTRS: [&str; 8] = [
+	"#[codec(skip = true)]",
+	"#[codec(skip(true))]",
+	"#[codec(compact(u64))]",
+	"#[codec(compact = \"u64\")]",
+	"#[codec(encoded_as)]",
+	"#[codec(encoded_as(Compact<u32>))]",
+	"#[codec(skipped)]",
+	"#[codec(index = 3)]",
+];
+
 pub fn reject_reason(def: &Def) -> Option<&'static str> {
 	match &def.body {
 		Body::Union => return Some("union"),
 		Body::Struct { fields, .. } => {
+			if fields.iter().any(|f| f.extra_attrs.iter().any(|a| MALFORMED_FIELD_ATTRS.contains(&a.as_str()))) {
+				return Some("malformed-field-attribute");
+			}
 			if fields.iter().any(|f| !f.extra_attrs.is_empty()) {
 				return Some("conflicting-field-attributes");
 			}
@@ -461,6 +506,9 @@ pub fn reject_reason(def: &Def) -> Option<&'static str> {
 		Body::Enum { variants } => {
 			if def.derive_compact_as {
 				return Some("compact-as-on-enum");
+			}
+			if variants.iter().flat_map(|v| v.fields.iter()).any(|f| f.extra_attrs.iter().any(|a| MALFORMED_FIELD_ATTRS.contains(&a.as_str()))) {
+				return Some("malformed-field-attribute");
 			}
 			if variants.iter().flat_map(|v| v.fields.iter()).any(|f| !f.extra_attrs.is_empty()) {
 				return Some("conflicting-field-attributes");
@@ -559,6 +607,9 @@ impl Def {
 		}
 		if self.dumb_trait_bound {
 			s.push_str("#[codec(dumb_trait_bound)]\n");
+		}
+		if self.mel_bound && !for_c17 {
+			s.push_str(&format!("#[codec(mel_bound({}: MaxEncodedLen))]\n", self.generics[0]));
 		}
 		match &self.body {
 			Body::Struct { fields, tuple } => {
@@ -759,6 +810,9 @@ impl Def {
 		if self.transparent {
 			l.push("repr(transparent)".into());
 		}
+		if self.mel_bound {
+			l.push("mel_bound".into());
+		}
 		if self.dumb_trait_bound {
 			l.push("dumb_trait_bound".into());
 		}
@@ -859,6 +913,7 @@ pub fn gen_c17_enum(g: &mut Gen, name: &str) -> Def {
 		derive_mel: false,
 		derive_compact_as: false,
 		dumb_trait_bound: false,
+		mel_bound: false,
 	}
 }
 
@@ -927,6 +982,7 @@ pub fn c17_fixed_set() -> Vec<Def> {
 		derive_mel: false,
 		derive_compact_as: false,
 		dumb_trait_bound: false,
+		mel_bound: false,
 	};
 	let f = |ty: &str, mode: Mode, extra: &[&str]| FieldDef { ty: ty.into(), mode, extra_attrs: extra.iter().map(|s| s.to_string()).collect() };
 	let mut v = vec![];
@@ -955,6 +1011,19 @@ pub fn c17_fixed_set() -> Vec<Def> {
 			Body::Enum {
 				variants: vec![
 					VarDef { index_attr: None, discriminant: None, skip: false, fields: vec![f("u32", mode.clone(), extra), f("u8", Mode::Plain, &[])], tuple: false },
+					VarDef { index_attr: None, discriminant: None, skip: false, fields: vec![], tuple: false },
+				],
+			},
+		));
+	}
+	for (i, a) in MALFORMED_FIELD_ATTRS.iter().enumerate() {
+		v.push(base(&format!("MalS{i}"), Body::Struct { fields: vec![f("u32", Mode::Plain, &[a]), f("u8", Mode::Plain, &[])], tuple: false }));
+		v.push(base(&format!("MalF{i}"), Body::Struct { fields: vec![f("u32", Mode::Plain, &[a])], tuple: true }));
+		v.push(base(
+			&format!("MalE{i}"),
+			Body::Enum {
+				variants: vec![
+					VarDef { index_attr: None, discriminant: None, skip: false, fields: vec![f("u32", Mode::Plain, &[a]), f("u8", Mode::Plain, &[])], tuple: true },
 					VarDef { index_attr: None, discriminant: None, skip: false, fields: vec![], tuple: false },
 				],
 			},
